@@ -192,6 +192,18 @@ def run(F, R, tier):
         R.ob("packet-serialiser-shape", spec["pkt"], init == {"header"} and ok_seq,
              "the output starts as the bytes of %s (want the header); then, per path, appends %s (want %s)" % (sorted(init, key=repr), sorted(seqs, key=repr), sorted(want, key=repr)), F.loc(f))
 
+    # a packet / layer object holds its header, its bytes, where its payload starts and its cached inner layer — no
+    # second copy of its serialisation that an assignment to a field would leave stale
+    for name, spec in L.LAYERS.items():
+        if not spec.get("pkt_enc"):
+            continue
+        adt = F.adts.get(spec["obj"])
+        if not R.anchor("struct " + spec["obj"], adt):
+            continue
+        flds = [fl.get("name") for v in adt.get("variants", []) for fl in v.get("fields", [])]
+        extra = [f_ for f_ in flds if f_ not in ("header", "rawdata", "offset", "inner")]
+        R.ob("packet-holds-no-derived-bytes", spec["pkt"], not extra, "fields %s%s" % (flds, ("; unexpected: %s" % extra) if extra else ""), nontrivial=False)
+
     # Object serialiser: layer variants delegate, non-layer variants (incl. Err) yield no bytes
     fo = F.fn("object::<impl std::convert::From<&object::Object> for std::vec::Vec<u8>>::from")
     layer_variants = {"Packet", "Eth", "Vlan", "Ipv4", "Ipv6", "Udp", "Tcp"}
